@@ -507,7 +507,11 @@ func randLabelSet(r *rng, c *genCfg, prot bool, n int) []hentry {
 	}
 	if r.chance(c.invalid, 300) {
 		// label of a non-label type
-		es = append(es, hentry{r.pickHV([]*hv{hBytes([]byte{1}), hBool(true), hNil(), hArr(), {kind: "float", u: 0x3ff0000000000000}}), hInt(1)})
+		if c.goSide {
+			es = append(es, hentry{r.pickHV([]*hv{hBool(true), hNil(), {kind: "opaque"}, {kind: "float", u: 0x3ff0000000000000}}), hInt(1)})
+		} else {
+			es = append(es, hentry{r.pickHV([]*hv{hBytes([]byte{1}), hBool(true), hNil(), hArr(), {kind: "float", u: 0x3ff0000000000000}}), hInt(1)})
+		}
 	}
 	return es
 }
@@ -573,7 +577,7 @@ func randExt(r *rng) string {
 	case 0:
 		return "-"
 	case 1:
-		return ""
+		return "_"
 	}
 	return hex.EncodeToString(r.bytes(1 + r.intn(5)))
 }
@@ -602,4 +606,12 @@ func algOf(h *hdrSpec) (int64, bool) {
 
 func tsig(kid byte, tbs []byte) []byte {
 	return append([]byte{1, kid}, tbs...)
+}
+
+// op-level byte field: "_" for the empty string (fields are space separated)
+func hexs(b []byte) string {
+	if len(b) == 0 {
+		return "_"
+	}
+	return hex.EncodeToString(b)
 }
